@@ -181,7 +181,9 @@ where
     T: CBOREncodable,
 {
     fn into_envelope(self) -> Envelope {
-        Envelope::new(CBOR::from(self))
+        // A `HashSet` iterates in hasher-dependent order; go through `Set`,
+        // which orders its elements by their CBOR encoding.
+        Envelope::new(CBOR::from(Set::from(self)))
     }
 }
 
